@@ -193,7 +193,15 @@ SRC_VARIANTS = [
     ("clang-O2-noidiom", ["-mllvm", "-inline-threshold=20000", "-mllvm", "-disable-loop-idiom-all", "-O2"]),
     ("clang-O3-inl100k", ["-mllvm", "-inline-threshold=100000", "-O3"]),
     ("clang-O2-inl3k", ["-mllvm", "-inline-threshold=3000", "-O2"]),
+    # code that uses explicit vector types (the SIMD evaluators): no auto-vectorisation (the SLP vectoriser turns the oracle's scalar sum
+    # into llvm.vector.reduce.* which nothing relates to the library's lanes again), then every vector operation / load / store is split
+    # into scalars so that the lane arithmetic becomes ordinary integer arithmetic
+    ("clang-O2-novec-scalarized", ["-mllvm", "-inline-threshold=20000", "-O2", "-fno-slp-vectorize", "-fno-vectorize"]),   # (the -fno-* flags after -O2, or clang 14 re-enables the vectorisers)
 ]
+# IR steps applied after a source variant (same soundness argument: LLVM passes preserve semantics)
+SRC_VARIANT_POST = {
+    "clang-O2-novec-scalarized": [[OPT, "-scalarize-load-store", "-passes=function(scalarizer,instcombine,gvn,reassociate,instcombine,early-cse,reassociate,instcombine,simplifycfg)", "-S"]],
+}
 
 
 def compile_tu(src, mode, tier, extra, workdir, opt=None, tag=""):
@@ -272,6 +280,11 @@ def analyse_tu(src, tier="quick", extra=(), keep_ir=False):
                 if rc != 0:
                     continue
                 used.append(vname)
+                for i, st in enumerate(SRC_VARIANT_POST.get(vname, [])):
+                    nxt = os.path.join(workdir, "v_%s_%d.ll" % (vname, i))
+                    rc, so, se = _run(st + [vll, "-o", nxt])
+                    if rc == 0:
+                        vll = nxt
                 t2 = open(vll).read()
                 c2, md2 = parse_ir(t2)
                 keys2 = set((c["func"], c["id"], c["ints"]) for c in residual_of(c2))
